@@ -303,7 +303,7 @@ func init() {
 			return goBytesToSlice(h.re.ReplaceAll(src, repl))
 		}
 		// opaque: an injective function of (template, subject), distinct from Expand's
-		out := goBytesToSlice([]byte("<replaceall:"))
+		out := goBytesToSlice([]byte("<replaceall:" + h.re.String() + ":"))
 		out = append(out, termsToSlice(bytesToTerms(args[2]))...)
 		out = append(out, byteConsts[':'])
 		out = append(out, termsToSlice(bytesToTerms(args[1]))...)
